@@ -806,3 +806,39 @@ func VerifQueueFault() {
 	s.checkCounters("after the drain")
 	verifReach("end")
 }
+
+// VerifQueueFlushTail (C12, C06, C08): the second flush only rewrites the already
+// assigned tail page (no page has to be allocated); the event it adds may end
+// exactly at the page end, so that the buffer already holds a fresh page for the
+// next event header.  The flush meets an injected failure and is retried.
+func VerifQueueFlushTail() {
+	s := newQ(64, 0)
+	pairs := [][2]int{{1, qPayload - 8 - 1}, {490, qPayload - 8 - 490}, {1, 100}, {qPayload - 4, 50}}
+	pr := pairs[verifChoose(len(pairs))]
+	verifAssert(s.appendEvent(pr[0], 1), "append succeeds")
+	verifAssert(s.flush(), "Flush succeeds")
+	verifAssert(s.appendEvent(pr[1], 1), "append succeeds")
+	kinds := []int{txfile.VerifFaultWrite, txfile.VerifFaultSync}
+	kind, ord := kinds[verifChoose(2)], verifChoose(verifParam("faultords", 3))
+	s.disk.SetFault(kind, ord, 1)
+	err := s.w.Flush()
+	s.sync()
+	if err != nil {
+		verifAssert(s.disk.Faults() > 0, "Flush fails only because of the injected failure")
+		s.disk.ClearFault()
+		verifAssert(s.flush(), "the retried Flush succeeds")
+	}
+	s.disk.ClearFault()
+	s.checkCounters("after the flush with the failure")
+	verifAssert(s.appendEvent(100, 1), "append succeeds")
+	verifAssert(s.flush(), "Flush succeeds")
+	if verifBool("reopen") {
+		s.reopen()
+		s.checkCounters("after reopen")
+	}
+	s.r = s.q.Reader()
+	s.drain(4096)
+	verifAssert(s.read == len(s.events), "every flushed event is delivered exactly once, in order, with its bytes")
+	s.checkCounters("after the drain")
+	verifReach("end")
+}
